@@ -1128,6 +1128,14 @@ class M_run_dag(CoroBase):
             out.append(('early-exit-launches-nothing-further|C10', not spawns(tail) and not calls(tail, '_create_task')))
             out.append(('early-exit-releases-the-waiters-of-the-node-it-did-not-launch|C02,C10', len(unl) == 1))
             out.append(('early-exit-returns-None', T(value, st) == NONE))
+            # C02/C10: whoever waits for the outcome of this scope (the one-of that started it) waits on the condition of
+            # the scope's destination; a scope that gives up has to wake it, unless the wake-up it just consumed was on
+            # that very condition (the node it did not launch is the destination itself)
+            ws = [e for e in tail if e.kind == 'wait']
+            gave_up_at = ws[-1].cond if ws else None
+            if gave_up_at is not None:
+                out.append(('early-exit-wakes-the-waiter-of-the-scope (condition of the destination)|C02,C10', z3_or(
+                    gave_up_at == sub.dest, notifies(it, tail, sub.dest))))
             lt_ok = len(stops) == 1 and not [e for e in tail if e.kind == 'cancel']
             out.append(('early-exit-cancels-only-its-own-tasks|C13', lt_ok))
             ltref = st.ghost.get('rd:local_tasks')
